@@ -392,10 +392,25 @@ def run_core(scn, want=("c01", "c02", "c03", "c04", "c05", "c06")):
     if B is not None:
         itf = tb.dut.controller.interface
         bank_idle = []
+        from migen.genlib import roundrobin
+        arbs = [m_ for _, m_ in tb.dut.crossbar._submodules if isinstance(m_, roundrobin.RoundRobin)]
         for n in range(itf.nbanks):
             bk = getattr(itf, "bank%d" % n)
-            bank_idle.append((sim.index(bk.valid), sim.index(bk.lock)))
+            # (bank valid, bank lock, the bank arbiter's request vector: bit i = master i is requesting this bank and is not held
+            # back by its own outstanding commands in another bank)
+            bank_idle.append((sim.index(bk.valid), sim.index(bk.lock), sim.index(arbs[n].request) if len(arbs) == itf.nbanks else None))
     S = sim.S
+    # fairness of the multiplexer's column-command chooser (diagnosis for C05): for every bank machine with a column command of one
+    # direction continuously pending, how many commands of the same direction were accepted from other bank machines meanwhile.
+    # A round robin over n bank machines never lets this exceed n - 1.
+    bm_sig = None
+    overtaken = {"max": 0, "bank": None, "dir": None}
+    if B is not None:
+        from litedram.core.bankmachine import BankMachine
+        bms_ = [m_ for _, m_ in tb.dut.controller._submodules if isinstance(m_, BankMachine)]
+        bm_sig = [(sim.index(b_.cmd.valid), sim.index(b_.cmd.ready), sim.index(b_.cmd.is_read), sim.index(b_.cmd.is_write)) for b_ in bms_]
+        bm_pend = [None] * len(bm_sig)       # direction pending ("r"/"w") or None
+        bm_over = [0] * len(bm_sig)
     postponing = tb.ctrl.get("refresh_postponing", 1)
     L = service_latency(tb, postponing)
     t_ = tb.timing
@@ -450,12 +465,29 @@ def run_core(scn, want=("c01", "c02", "c03", "c04", "c05", "c06")):
                         waits["cmd"] = w_
                         worst["cmd"] = (i, tgt[i], releases[i], m.cur.get("id"))
                 if bank_idle is not None:
-                    vi, li = bank_idle[tgt[i]]
-                    if not S[vi] and not S[li]:
+                    vi, li, ri = bank_idle[tgt[i]]
+                    # a cycle in which the arbiter could have rotated to this master
+                    if not S[vi] and not S[li] and (ri is None or (S[ri] >> i) & 1):
                         releases[i] += 1
             else:
                 offer[i] = None
         cyc_box[0] = cyc
+        if bm_sig is not None:
+            served = None
+            for j_, (v_, r_, ir_, iw_) in enumerate(bm_sig):
+                d_ = ("r" if S[ir_] else "w" if S[iw_] else None) if S[v_] else None
+                if d_ != bm_pend[j_]:
+                    bm_pend[j_] = d_
+                    bm_over[j_] = 0
+                if d_ is not None and S[r_]:
+                    served = (j_, d_)
+            if served is not None:
+                for j_ in range(len(bm_sig)):
+                    if j_ != served[0] and bm_pend[j_] == served[1]:
+                        bm_over[j_] += 1
+                        if bm_over[j_] > overtaken["max"]:
+                            overtaken.update(max=bm_over[j_], bank=j_, dir=served[1])
+                bm_pend[served[0]] = None
         sim.step()
         cyc = sim.cycles["sys"]
         if cyc % sample_every == 0:
@@ -463,9 +495,10 @@ def run_core(scn, want=("c01", "c02", "c03", "c04", "c05", "c06")):
         if bound is not None:
             if waits["cmd"] > bound or waits["resp"] > bound:
                 break
-            for m in masters:
+            for i_, m in enumerate(masters):
                 if (m.pend and cyc - m.pend[0] > bound) or (m.wpend and cyc - m.wpend[0] > bound):
                     waits["resp"] = max(waits["resp"], bound + 1)
+                    worst["resp"] = (i_, "read" if (m.pend and cyc - m.pend[0] > bound) else "write", len(m.pend), len(m.wpend))
         if cyc % 64 == 0:
             prog = tuple((m.ncmd, len(m.wq), m.reads_out, m.got[0]) for m in masters)
             if prog != last_prog:
@@ -502,8 +535,12 @@ def run_core(scn, want=("c01", "c02", "c03", "c04", "c05", "c06")):
                      % (dlen, scn["limits"]["drain_after"], det), kind="drain")
     idle = all(m.idle() for m in masters)
     if bound is not None and waits["resp"] > bound:
-        viol.add("c05.wait_bound", "an accepted command waited %d cycles for its write-data strobe / read data (bound %d for this configuration)"
-                 % (waits["resp"], bound), kind="resp")
+        wr_ = worst.get("resp") or (-1, "?", 0, 0)
+        viol.add("c05.wait_bound", "an accepted command waited %d cycles for its write-data strobe / read data (bound %d for this configuration): "
+                 "port %d, oldest unanswered %s (%d reads, %d writes unanswered); while bank machine %s had a %s pending the multiplexer served "
+                 "%d such commands of other bank machines (%d bank machines)"
+                 % (waits["resp"], bound, wr_[0], wr_[1], wr_[2], wr_[3], overtaken["bank"], {"r": "read", "w": "write", None: "-"}[overtaken["dir"]],
+                    overtaken["max"], len(bm_sig or [])), kind="resp", overtaken=overtaken["max"], nbm=len(bm_sig or []))
     elif bound is not None and waits["cmd"] > bound:
         wi, wb, wr, wid = worst["cmd"]
         viol.add("c05.wait_bound", "port %d command (op %s, bank machine %d) waited %d cycles for acceptance (bound %d for this configuration); "
